@@ -80,7 +80,7 @@ class World:
                 self.register_strings(x)
 
     def case(self, op="net", extra_meta=None):
-        toks = [self.cap, len(self.universe)]
+        toks = [self.cap, self.base, len(self.universe)]
         for s in self.universe:
             toks += text_tokens(s)
         toks.append(len(self.entries))
